@@ -216,6 +216,21 @@ CHECKS = {
         note="Values are opaque tokens in the model: fidelity over full numeric ranges is sampled, not enumerated (the "
              "weakest fit of the technique among the claimed properties). Trusted: the MEX mock. Strings: ASCII, no NUL.",
         design="6/C18"),
+    "C11": dict(
+        category="model_checking",
+        technique="TLA+ MexSession (objects, MATLAB handles, per-level collector entries, exit function; ownership "
+                  "invariants) explored by TLC (random sessions + exhaustive short sessions); every session replayed "
+                  "step by step into the compiled real gateway (plain and AddressSanitizer builds)",
+        text="The generated <module>_wrapper.cpp of a session interface (3-level virtual chain, unrelated class, "
+             "namespaced class, objects by value/reference/shared/raw pointer, returned objects, properties, statics, "
+             "free functions, defaults, pairs) is compiled with the real matlab.h against a mock MEX API and an "
+             "instrumented library; the MATLAB side is emulated from the scanned .m files. After every step of every TLC "
+             "session the gateway's result, the logged C++ call (entity + argument values incl. omitted defaults), "
+             "object identity of returned handles, live objects per class and collector sizes must equal the model's.",
+        note="One gateway (hand-written interface + library), MATLAB emulated. The Unload-then-Delete hazard is a known "
+             "finding (TLC counterexample + ASan confirmation). Returned objects always get the static MATLAB class "
+             "(the generator passes isVirtual=false), which the model transcribes.",
+        design="6/C11"),
 }
 
 NOT_YET = "not yet built in this session; planned per DESIGN.md section 6"
